@@ -47,6 +47,12 @@ package verifspec
 // append's reallocation rule: if the capacity suffices the result shares the array (same offset, same capacity);
 // otherwise a new array of at least the requested capacity is allocated, the first $length elements are copied, and the
 // old array is left untouched.
+// Elements of struct and array kind (17, 25) are values: the new array holds clones of them, not the same objects -- after
+// a reallocation a mutation through the old slice must not be visible through the new one (and vice versa).  isclone(v)
+// / cloneOf(v): v is an object made by $clone from cloneOf(v); a clone is never the object it was made from.
+//@ pure isclone(v int) bool
+//@ pure cloneOf(v int) int
+//@ axiom cloneDistinct: all(v, isclone(v) ==> cloneOf(v) != v)
 //@ js prelude.js $growSlice
 //@ property C07
 //@   param slice: slice, minCapacity: nat
@@ -56,7 +62,8 @@ package verifspec
 //@   ensures !result.$nil && result.$length == slice.$length
 //@   ensures minCapacity <= slice.$capacity ==> sameobj(result.$array, slice.$array) && result.$offset == slice.$offset && result.$capacity == slice.$capacity
 //@   ensures minCapacity > slice.$capacity ==> freshobj(result.$array) && result.$offset == 0 && result.$capacity >= minCapacity && len(result.$array) >= result.$capacity
-//@   ensures minCapacity > slice.$capacity ==> forall(k, 0, slice.$length, result.$array[k] == old(slice.$array[slice.$offset + k]))
+//@   ensures minCapacity > slice.$capacity && slice.$elemtype.kind != 17 && slice.$elemtype.kind != 25 ==> forall(k, 0, slice.$length, result.$array[k] == old(slice.$array[slice.$offset + k]))
+//@   ensures minCapacity > slice.$capacity && (slice.$elemtype.kind == 17 || slice.$elemtype.kind == 25) ==> forall(k, 0, slice.$length, isclone(result.$array[k]) && cloneOf(result.$array[k]) == old(slice.$array[slice.$offset + k]))
 //@   ensures forall(k, 0, len(slice.$array), slice.$array[k] == old(slice.$array[k]))
 
 // copy / memmove on element arrays of scalar kinds: dst[dstOffset .. dstOffset+n) receives the *old* contents of
